@@ -15,7 +15,7 @@ from fractions import Fraction
 
 import numpy as np
 
-from . import lib
+from . import lib, hist
 from .lib import cbool, cnat, cZ, clist, cshape
 
 HEADER = ('From Coq Require Import List ZArith Bool.\n'
@@ -328,6 +328,12 @@ def gen_cases(rng, tier):
         else:
             dts = [rng.choice(['int', 'float']) for _ in shapes]
         cases.append(make_mm_case(rng, rng.choice(['maximum', 'minimum']), shapes, dts))
+    # a fraction of the cases runs on operands that were REACHED THROUGH A HISTORY (harness/hist.py: cached views
+    # asked for, then an in-place operation that brings the object to the described content); the expected
+    # result is still computed from the description (seeded changes C13-D, C14-D: stale antimask)
+    for c in cases:
+        if 'hist' not in c and rng.random() < 0.25:
+            c['hist'] = [rng.choice(HIST_MODES), rng.randrange(24)]
     return cases
 
 
@@ -335,6 +341,7 @@ def gen_cases(rng, tier):
 # building implementation objects
 # ---------------------------------------------------------------------------
 NPDT = {'int': np.int64, 'float': np.float64, 'bool': np.bool_}
+HIST_MODES = ['setitem', 'setitem', 'iadd', 'isub', 'imul', 'iand', 'ior', 'ixor']
 
 
 def build_mask(m, shape):
@@ -775,6 +782,16 @@ def coq_mm(c, objs):
 # ---------------------------------------------------------------------------
 # run one case
 # ---------------------------------------------------------------------------
+def via_history(c, obj, Pm):
+    h = c.get('hist')
+    if not h:
+        return obj
+    mode = h[0]
+    if mode not in hist.modes_for(obj):
+        mode = {'iand': 'iadd', 'ior': 'isub', 'ixor': 'setitem', 'iadd': 'iand', 'isub': 'ior', 'imul': 'ixor'}.get(mode, 'setitem')
+    return hist.reach(Pm, obj, mode, h[1])
+
+
 def run_case(c, Pm):
     res = {'coq': None, 'ref': None, 'ma': None}
     with warnings.catch_warnings():
@@ -784,7 +801,7 @@ def run_case(c, Pm):
                 objs = []
                 for d in c['cands']:
                     dd = dict(d, cls='Scalar', item=[])
-                    o = build_obj(dd, Pm)
+                    o = via_history(c, build_obj(dd, Pm), Pm)
                     objs.append(o)
                 args = [(o._values_ if (d.get('number') and not o._mask_) else o) for o, d in zip(objs, c['cands'])]
                 res['ref'] = ref_mm(c, objs)
@@ -793,7 +810,7 @@ def run_case(c, Pm):
                 fn = Pm.Scalar.maximum if c['op'] == 'maximum' else Pm.Scalar.minimum
                 res['impl'] = observe(fn(*args), Pm)
                 return res
-            obj = build_obj(c, Pm)
+            obj = via_history(c, build_obj(c, Pm), Pm)     # the model gets the representation this object has
             v2, mflat = expanded(obj)
             axis = tuple(c['axis']) if c.get('axis_tuple') else c['axis']
             res['dtype'] = c['dtype']
